@@ -119,6 +119,11 @@ class PropModel:
 _NONE = object()
 
 
+def _missing():
+    from spec_classes.types import MISSING
+    return MISSING
+
+
 class ClassPropModel:
     def __init__(self, cfg):
         self.cfg = cfg
@@ -132,7 +137,7 @@ class ClassPropModel:
         key = self.key(k)
         if key in self.cache:
             return ("ok", self.cache[key])
-        v = None if self.base == 3 else f"{k}:{self.base}"
+        v = None if self.base == 3 else (_missing() if self.base == 4 else f"{k}:{self.base}")
         if self.cfg["cache"]:
             self.cache[key] = v
         return ("ok", v)
@@ -166,6 +171,9 @@ def build_classprop_hierarchy(cfg, faults):
         faults.hit("cgetter")
         if state["base"] == 3:
             return None  # a legitimate value: must be cached / returned like any other
+        if state["base"] == 4:
+            from spec_classes.types import MISSING
+            return MISSING  # classproperty caches whatever the getter returns, the library's own sentinel included
         return f"{cls.__name__}:{state['base']}"
 
     def csetter(cls, v):
@@ -238,7 +246,7 @@ class C12(Check):
             objs = {k: c() for k, c in classes.items()}
             model = ClassPropModel(cfg)
             for idx in range(n_ops):
-                op = ops_in[idx] if ctx.replay else self.gen_class_op(src)
+                op = ops_in[idx] if ctx.replay else self.gen_class_op(src, cfg)
                 ctx.case["ops"].append(op)
                 self.step_class(ctx, cfg, faults, classes, objs, state, model, op, idx)
 
@@ -327,13 +335,14 @@ class C12(Check):
 
     # -- classproperty -------------------------------------------------------------------------------------
     @staticmethod
-    def gen_class_op(src):
+    def gen_class_op(src, cfg=None):
         k = src.weighted([("read_cls", 4), ("read_inst", 3), ("assign_inst", 2), ("delete_inst", 2), ("base", 1.5)])
         op = {"k": k, "c": src.choice(["A", "B", "C"])}
         if k == "assign_inst":
-            op["v"] = src.choice(["ov1", "ov2", None])
+            # (on a spec class assigning the MISSING sentinel is a documented no-op of __setattr__: plain hosts only)
+            op["v"] = src.choice(["ov1", "ov2", None] + ([] if (cfg or {}).get("spec") else [["sent", "MISSING"]]))
         elif k == "base":
-            op["v"] = src.choice([1, 2, 3])
+            op["v"] = src.choice([1, 2, 3, 4])
         return op
 
     def step_class(self, ctx, cfg, faults, classes, objs, state, model, op, idx):
@@ -345,9 +354,10 @@ class C12(Check):
             model.base = op["v"]
             ctx.log(idx, k)
             return
+        val = _missing() if op.get("v") == ["sent", "MISSING"] else op.get("v")
         cached_before = model.key(c) in model.cache
         exp = {"read_cls": lambda: model.read(c), "read_inst": lambda: model.read(c),
-               "assign_inst": lambda: model.assign(c, op["v"]), "delete_inst": lambda: model.delete(c)}[k]()
+               "assign_inst": lambda: model.assign(c, val), "delete_inst": lambda: model.delete(c)}[k]()
         got, exc = None, None
         try:
             if k == "read_cls":
@@ -355,7 +365,7 @@ class C12(Check):
             elif k == "read_inst":
                 got = objs[c].cp
             elif k == "assign_inst":
-                objs[c].cp = op["v"]
+                objs[c].cp = val
             else:
                 del objs[c].cp
         except RecursionError:
